@@ -524,7 +524,7 @@ def rule_lengths(ctx):
              cond=({"len(buf)": [0, 19, 20, 21], "macLength": [20]}, lambda e: e["len(buf)"] < 20)),
         dict(what="EtM: ciphertext is a multiple of the block size before decryption",
              text="len(buf) % blockLength != 0", fail="T", protects=_stmt("encContext.decrypt(buf)")),
-        dict(what="EtM: data left after removing the explicit IV", text="len(buf) == 0", fail="T",
+        dict(what="EtM: data left after removing the explicit IV", text="not buf", fail="T",
              protects=_stmt("paddingLength = buf[-1]")),
         dict(what="EtM: padding length fits in the record", text="paddingLength + 1 > len(buf)", fail="T",
              protects=_stmt("buf = buf[:-totalPaddingLength]"),
@@ -650,4 +650,6 @@ RULES = [
     ("C02.SHARED", "quick", rule_shared),
     ("C02.GETMSG", "quick", borrowed("c06", "rule_getmsg", "C06.GETMSG", "C02.GETMSG")),
     ("C02.RECORD-GATES", "quick", borrowed("c06", "rule_record_gates", "C06.RECORD-GATES", "C02.RECORD-GATES")),
+    # unprotected ChangeCipherSpec records are skipped only while the compatibility mode of THIS handshake lasts
+    ("C02.CCS-TOLERANCE", "quick", borrowed("c06", "rule_reneg", "C06.RENEG", "C02.CCS-TOLERANCE")),
 ]
